@@ -4,16 +4,14 @@ import json, os
 ROOT = os.path.dirname(os.path.abspath(__file__))
 BASELINE = ("cd /repo && export GOFLAGS=-mod=mod GOPROXY=off GOSUMDB=off GOTOOLCHAIN=local && "
             "go build ./... && go test -vet=off -count=1 -timeout 25m ./...")
-CHECKS = {
- "C18": dict(level="model_checking", technique="TLA+ spec (KadCache.tla) model-checked with TLC; TLC-generated behaviours replayed on the real Cache; traces validated by TLC against KadCacheTrace.tla",
-   text="TLC exhaustively checks every property operator of C18 on KadCache.tla (three key/locus families, every constructor configuration in the family, all operation sequences up to the depth bound) and then evaluates the same operators on traces recorded from the real kademlia.Cache executing TLC-generated behaviours (1-, 2- and 32-byte keys). A VIOLATION is printed only when an operator is false on real observations.",
-   note="Bounded: <= 8-11 keys per family, depth 3-4 exhaustively, depth 8-40 in simulation. Trusts TLC, the CommunityModules Json/IOUtils modules, the Go toolchain and the add-only VerifDump hook (p/kademlia/verif_export.go).",
-   ref="5 (C18), 3.9"),
- "C19": dict(level="model_checking", technique="TLA+ spec (KadCache.tla, KadDist.tla) model-checked with TLC; behaviours and all distance triples replayed on the real code; traces validated by TLC",
-   text="TLC checks ForEachSorted/ClosestIsMin/CloserExact/MatchingExact on every reachable cache content of KadCache.tla for every query key of the family (including keys shorter and longer than the locus), and the distance-comparison laws on all 9261 triples of byte strings of length <= 2 over {0,1,128,255}; the same operators are evaluated on what the real ForEach/Closest/ForEachCloser/ForEachMatching/DistanceCmp/... returned.",
-   note="As C18; entry keys have the locus' length, query keys any length. ForEachMatching is exercised at prefix lengths {0,1,2,5,7,8,9,15,16,17,24} only.",
-   ref="5 (C19), 3.9"),
-}
+import importlib, pkgutil, sys
+sys.path.insert(0, ROOT)
+import vlib
+CHECKS = {}
+for _m in pkgutil.iter_modules(vlib.__path__):
+    if _m.name != "core":
+        CHECKS.update(getattr(importlib.import_module("vlib." + _m.name), "MANIFEST", {}))
+CHECKS = dict(sorted(CHECKS.items()))
 PENDING = {}
 def main():
     props = [json.loads(l) for l in open(os.path.join(ROOT, "properties.jsonl"))]
